@@ -46,12 +46,16 @@ class Recorder:
         rec = self
 
         def car(mol, *a, **k):
+            ev = {}
+            rec.calls[-1]['car_args'] = (a, k)
             try:
-                r = orig_car(mol, *a, **k)
+                r = traced_car(orig_car, ev, mol, *a, **k)
             except SyntaxError:
                 rec.calls[-1]['car'] = None
+                rec.calls[-1].update(ev)
                 raise
             rec.calls[-1]['car'] = copy.deepcopy(mol)
+            rec.calls[-1].update(ev)
             return r
 
         def rebuild(mol, *a, **k):
@@ -73,6 +77,65 @@ class Recorder:
     def remove(self):
         for m, f in self.saved:
             m.rebuild_h_atoms = f
+
+
+_THRESHOLD = []
+
+
+def estimation_threshold():
+    """dekekulize's default estimation_threshold, read from the installed source (as tools/gen_hydro.py does)"""
+    if not _THRESHOLD:
+        import inspect
+        import re
+        from pysmiles import smiles_helper as SH
+        m = re.findall(r'estimation_threshold = estimation_threshold if estimation_threshold is not None else (\d+)',
+                       inspect.getsource(SH.dekekulize))
+        _THRESHOLD.append(int(m[0]) if len(m) == 1 else 30)
+    return _THRESHOLD[0]
+
+
+def traced_car(orig_car, ev, mol, *a, **k):
+    """run correct_aromatic_rings and record the two answers of networkx' enumeration the model takes as transcripts:
+    ev['match'] = the first nx.max_weight_matching answer (the kekulisation matching), ev['rings'] = the rings
+    dekekulize marked, in order, each with the flag `estimated` (ring system above the threshold: no alternation test)"""
+    import networkx
+    from pysmiles import smiles_helper as SH
+    ev['match'] = None
+    ev['rings'] = []
+    o_mwm, o_ria, o_est = networkx.max_weight_matching, SH._ring_is_aromatic, SH._estimate_aromatic_cycles
+    thr = k.get('estimation_threshold') or estimation_threshold()
+
+    def mwm(G, *aa, **kk):
+        r = o_mwm(G, *aa, **kk)
+        if ev['match'] is None:
+            ev['match'] = sorted(tuple(e) for e in r)
+        return r
+
+    def ria(m, nodes):
+        r = o_ria(m, nodes)
+        if r:
+            ev['rings'].append((list(nodes), False))
+        return r
+
+    def est(m):
+        r = o_est(m)
+        if len(m) > thr:
+            r = list(r)
+            ev['rings'].extend((list(c), True) for c in r)
+        return r
+    networkx.max_weight_matching, SH._ring_is_aromatic, SH._estimate_aromatic_cycles = mwm, ria, est
+    try:
+        return orig_car(mol, *a, **k)
+    finally:
+        networkx.max_weight_matching, SH._ring_is_aromatic, SH._estimate_aromatic_cycles = o_mwm, o_ria, o_est
+
+
+def lit_match(M):
+    return lit.lst(['(%s, %s)' % (lit.z(u), lit.z(v)) for u, v in (M or [])])
+
+
+def lit_rings(L):
+    return lit.lst(['(%s, %s)' % (lit.lst([lit.z(x) for x in c]), lit.b(e)) for c, e in (L or [])])
 
 
 def in_table(G):
@@ -484,6 +547,14 @@ FRAG_TEXTS = ['CC', 'C[H]', '[H]C([H])([H])C', '[H]', 'H', 'O', '[OH2]', 'C[NH3+
               '[H]/C=C/F', 'OC=C/', 'C/C=C/[$]C', '[Na+]', 'C[N+](C)(C)[H]', '[H]N([H])C(=O)C']
 
 
+AROM_TEXTS = ['c1ccccc1', 'c1ccc2ccccc2c1', 'c1ccc2c(c1)[nH]cc2', 'c1ccsc1', 'c1cc[nH]c1', 'c1ccncc1', 'c1ccoc1', 'c1cnc[nH]1',
+              'c1ccc2cc3ccccc3cc2c1', 'c1cc2cccc3ccc4cccc1c4c32', 'c1ccc2c(c1)c1ccccc1c1ccccc21', 'c1cc2ccc1CC2', 'C1=CC=CC=C1',
+              'C1=CC=C2C=CC=CC2=C1', 'c1ccccc1c1ccccc1', 'c1ccc(cc1)C=C', 'c1cccc1', 'c1ccc1', 'c1cc[n+](C)cc1', 'c1cc[nH+]cc1',
+              'c1ccc2ccc2c1', 'c1cccc2cccc2c1', 'c1c[nH]c2ccccc12', 'O=c1cc[nH]cc1', 'c1ccc2[nH]c3ccccc3c2c1', 'cc', 'ccc', 'c1ccccc1C',
+              'C1=CC=CN=C1', 'c1nc2ccccc2s1', 'c1ccc2occc2c1', 'C:1:C:C:C:C:C1', 'C1=COC=C1', 'c1ccc2c(c1)Cc1ccccc12', 'c1cscn1',
+              'n1ccccc1O', 'c1ccc2c(c1)ccc1ccccc12', '[cH-]1cccc1', 'c1cc2cc3ccc4cc5ccc6cc1c1c2c3c4c5c61', 'C1=CC2=CC=CC2=C1', 'c1cocc1',
+              'c1ccbcc1', 'c1ccpcc1', 'c1cc[se]c1', 'C12=C3C4=C1C1=C2C3=C41', 'c1ccc2c(c1)C=CC=C2', 'c1ccc2c(c1)CC=C2', '*1ccccc1', 'c1c*cc1']
+
 def rand_helper_graph(rng, for_fill=True):
     n = rng.randint(1, 6)
     keys = sorted(rng.sample(range(0, 12), n))
@@ -576,6 +647,34 @@ def helper_extras(seed):
         if not any(d.get('ez_isomer') for _, d in H.nodes(data=True)):
             _, err = call(SH.remove_explicit_hydrogens, H)
             add('remove_explicit_hydrogens', '(XRemoveH %s %s)' % (lit.nxgraph(G), ores(H, err)))
+    # correct_aromatic_rings called directly: random small graphs (wildcards, 1.5 / 0 orders, stale flags) and ring
+    # systems read from SMILES text as a fragment is read (aromatic flags and 1.5 orders as written)
+    for _ in range(3):
+        if rng.random() < 0.5:
+            G = rand_helper_graph(rng, for_fill=False)
+            for _n, d in G.nodes(data=True):
+                d.pop('rs_isomer', None)
+        else:
+            try:
+                G = pysmiles.read_smiles(rng.choice(AROM_TEXTS), explicit_hydrogen=False, reinterpret_aromatic=False, strict=False)
+            except Exception:      # noqa: BLE001
+                continue
+            for _n, d in G.nodes(data=True):
+                for key in ('_atom_str', '_pos', 'rs_isomer', 'ez_isomer'):
+                    d.pop(key, None)
+                if rng.random() < 0.15:
+                    d.pop('hcount', None)
+            for _u, _v, d in G.edges(data=True):
+                for key in ('_bond_str', '_pos'):
+                    d.pop(key, None)
+        if not in_table_or_star(G) or not modelable(G):
+            continue
+        strict = rng.random() < 0.7
+        H = copy.deepcopy(G)
+        ev = {}
+        _, err = call(traced_car, SH.correct_aromatic_rings, ev, H, strict=strict)
+        add('correct_aromatic_rings', '(XCar %s %s %s %s %s)' % (lit.b(strict), lit.nxgraph(G), lit_match(ev.get('match')),
+                                                               lit_rings(ev.get('rings')), ores(H, err)))
     # read_fragment_smiles: everything after pysmiles.read_smiles (its result is the transcript)
     for _ in range(3):
         text = rng.choice(FRAG_TEXTS)
@@ -809,7 +908,9 @@ class C09(common.Prop):
         before = call['before']
         # a call the model does not cover (other arguments, aromaticity pass not run) is not COMPARED with the
         # model, but the molecule that comes back is still JUDGED
-        nocorr = call['args'] != ((), {}) or call['car'] == 'not called'
+        nocorr = (call['args'] != ((), {}) or call['car'] == 'not called'
+                  or not (call.get('car_args', ((), {}))[0] == () and set(call.get('car_args', ((), {}))[1]) == {'strict'}
+                          and isinstance(call['car_args'][1]['strict'], bool)))
         if not in_table(before):
             return {'skip': 'element/charge outside the generated valence table'}
         graphs = [before] + [g for g in (call.get('car'), call.get('after')) if isinstance(g, nx.Graph)]
@@ -817,7 +918,8 @@ class C09(common.Prop):
             return {'skip': 'stereo annotation or non half-integral order (outside the model)'}
         out = {'before': lit.nxgraph(before),
                'car': None if (call['car'] is None or call['car'] == 'not called') else lit.nxgraph(call['car']),
-               'nocorr': nocorr,
+               'nocorr': nocorr, 'match': lit_match(call.get('match')), 'rings': lit_rings(call.get('rings')),
+               'n_rings': len(call.get('rings') or []), 'n_match': len(call.get('match') or []),
                'after': lit.obs_graph(call['after']) if 'after' in call else None,
                'exc': call.get('exc'), 'later_exc': exc,
                'final': lit.obs_graph(final) if final is not None else None,
@@ -852,14 +954,15 @@ class C09(common.Prop):
 
     def coq_case(self, case, impl):
         if 'helpers' in impl:
-            return ('{| c_skip := true; c_before := []; c_car := None; c_after := None; c_final := None; c_extra := %s; c_nocorr := false; c_coarse := [] |}'
+            return ('{| c_skip := true; c_before := []; c_car := None; c_after := None; c_final := None; c_extra := %s; c_nocorr := false; c_coarse := []; c_match := []; c_rings := [] |}'
                     % lit.lst(impl['helpers']))
         if 'skip' in impl:
-            return '{| c_skip := true; c_before := []; c_car := None; c_after := None; c_final := None; c_extra := []; c_nocorr := false; c_coarse := [] |}'
-        return ('{| c_skip := false; c_before := %s; c_car := %s; c_after := %s; c_final := %s; c_extra := []; c_nocorr := %s; c_coarse := %s |}'
+            return '{| c_skip := true; c_before := []; c_car := None; c_after := None; c_final := None; c_extra := []; c_nocorr := false; c_coarse := []; c_match := []; c_rings := [] |}'
+        return ('{| c_skip := false; c_before := %s; c_car := %s; c_after := %s; c_final := %s; c_extra := []; c_nocorr := %s; c_coarse := %s; c_match := %s; c_rings := %s |}'
                 % (impl['before'], lit.opt(impl['car'], lambda x: x), lit.opt(impl['after'], lambda x: x),
                    lit.opt(impl['final'], lambda x: x), lit.b(impl.get('nocorr', False)),
-                   lit.lst(['(%s, %s)' % (lit.z(k), lit.s(n)) for k, n in impl.get('coarse', [])])))
+                   lit.lst(['(%s, %s)' % (lit.z(k), lit.s(n)) for k, n in impl.get('coarse', [])]),
+                   impl.get('match', '[]'), impl.get('rings', '[]')))
 
 
 PROP = C09()
